@@ -16,7 +16,8 @@
 //              recreate(w,h,a) / recreate(w,h,pixel,a) / recreate(w,h,a,alloc) / recreate(w,h,pixel,a,alloc)
 //     then every pixel of view(img) and of the view derived by <xforms> (U L T R C I S<sx>,<sy> B<x0>,<y0>,<w>,<h>, and for
 //     homogeneous byte-addressed kinds N<n> = nth_channel_view(., n), K<k> = kth_channel_view<k>, anywhere in the list) is
-//     read and written back through view(x,y), row_begin(y)[x], begin()[i]; fill_pixels / copy_pixels / for_each_pixel run on it
+//     read and written back through view(x,y), row_begin(y)[x], begin()[i], and through the 1-D iterator after multi-row moves
+//     (end() - k, (begin() + j) - (j - i), rbegin() + k for every pixel); fill_pixels / copy_pixels / for_each_pixel run on it
 //   -> n nalloc off fmod row w h lo hi | dw dh dlo dhi | ok        (or `... segv:<byte offset from the allocation start>`)
 //        n      bytes requested from the allocator for the storage in use;  nalloc  number of allocations made by the op
 //        off    first pixel - allocation start (memory units);  fmod  address of the first pixel modulo A (0 if A = 0)
@@ -128,6 +129,13 @@ struct Touch {        // read + write back every pixel through several access pa
             px = v.col_begin(x)[y];
             px = v.begin()[y * w + x]; v.begin()[y * w + x] = px;
             px = *v.xy_at(x, y);
+            // the 1-D iterator after negative / positive multi-row random-access moves landing on this pixel (every column, column 0 included):
+            // end() - k,  (begin() + j) - (j - i),  rbegin() + k.  The position reached is part of the reported extent.
+            long i = y * w + x, size = w * h;
+            auto track = [&](auto const& xit) { long long a2 = it_addr(xit), e2 = it_end(xit, ps); if (a2 < lo) lo = a2; if (e2 > hi) hi = e2; };
+            { auto E = v.end() - (size - i); track(E.x()); px = *E; *E = px; }
+            { long j = std::min(size, i + w + 1); auto B = (v.begin() + j) - (j - i); track(B.x()); px = *B; *B = px; }
+            { auto R = v.rbegin() + (size - 1 - i); auto t = R.base(); --t; track(t.x()); px = *R; *R = px; }
         }
         if (w > 0 && h > 0) {
             typename V::value_type px = v(0, 0);
